@@ -66,13 +66,13 @@ def run(ctx, rep):
     rep.trusted = ['rustc MIR (moves, dominators, resolved callees)', 'syn / astq for guard shapes']
     prog = cg.Program(ctx.mirq('all'))
     # R0: the look-ups the rejections (and the skip that lifts them) read must see every attribute of the node
-    pr.all_attrs_rule(ctx, rep, 'R0', ('serde_flatten', 'get_tag_key', 'get_content_key', 'get_serialized_as_type', 'is_skipped'), 7)
-    r1(ctx, rep, prog)
-    r2(ctx, rep)
-    r2_never_constructed(ctx, rep, prog)
-    r3(ctx, rep, prog)
-    r4(ctx, rep)
-    w(ctx, rep, prog)
+    rep.section(pr.all_attrs_rule, ctx, rep, 'R0', ('serde_flatten', 'get_tag_key', 'get_content_key', 'get_serialized_as_type', 'is_skipped'), 7, keys=('flatten', 'tag', 'content', 'serialized_as', 'skip'))
+    rep.section(r1, ctx, rep, prog)
+    rep.section(r2, ctx, rep)
+    rep.section(r2_never_constructed, ctx, rep, prog)
+    rep.section(r3, ctx, rep, prog)
+    rep.section(r4, ctx, rep)
+    rep.section(w, ctx, rep, prog)
 
 
 def r1(ctx, rep, prog):
